@@ -254,8 +254,10 @@ Stability ==
      /\ cnt' = BumpAll(cnt, {"stability", "stability_expect_" \o E.expect} \cup (IF ~positive THEN {"stability_at_negative_pressure"} ELSE {}) \cup (IF r.ok /\ Len(r.trials) > 0 THEN {"stability_trials_returned"} ELSE {}))
   /\ UNCHANGED lastBubble
 
+LleSkip == /\ Ev("LleSkip") /\ cnt' = Bump(cnt, "lle_skipped") /\ UNCHANGED lastBubble
+
 Init == l = 1 /\ cnt = NoCount /\ lastBubble = <<>>
-Next == /\ (PureVle \/ PureDiagram \/ Critical \/ CriticalPR \/ Spinodal \/ BubbleDew \/ Flash \/ FlashSweep \/ FlashOutside \/ BinaryDiagram \/ Stability)
+Next == /\ (PureVle \/ PureDiagram \/ Critical \/ CriticalPR \/ Spinodal \/ BubbleDew \/ Flash \/ FlashSweep \/ FlashOutside \/ BinaryDiagram \/ Stability \/ LleSkip)
         /\ (l' > NRec => PrintT("STATS " \o ToJson(cnt')))
 TraceSpec == Init /\ [][Next]_vars
 ================================================================================
